@@ -31,7 +31,7 @@ PROP = "C26"
 MIN_OBLIGATIONS = 30
 CG = "pandapower.topology.create_graph"
 GS = "pandapower.topology.graph_searches"
-NOT_DECIDED = ["not decided: connected_components (generator over a networkx graph), nogobuses / notravbuses removal (networkx adjacency "
+NOT_DECIDED = ["bounded native stand-in only: connected_components (generator over a networkx graph), nogobuses / notravbuses removal (networkx adjacency "
                "manipulation), branch impedances of the edges, tcsc / dcline / vsc / line_dc edges, graph_tool back end",
                "not decided: networkx itself (Dijkstra, MultiGraph) -- external"]
 
@@ -213,6 +213,15 @@ def run(vc):
                     meta=dict(part="distance"))
             p.prove("distance:all-branch-types", all(args.get(n, True) is True for n in sig[1:9]), meta=dict(part="distance"))
     vc.explore("calc_distance_to_bus", h_dist, max_paths=10)
+    if not hasattr(vc, "native_standins"):
+        vc.native_standins = []
+    vc.native_standins.append(dict(
+        name="graph, components and distances on fixed networks (incl. notravbuses next to out-of-service buses)",
+        bound="one 12-bus network with every branch type and switch kind (respect_switches in {True, False}); chains of 5..7 buses with "
+              "out-of-service buses, nogobuses and notravbuses; connected_components with six notravbuses sets",
+        script="import sys\nfrom replaylib.topology import main, main_nodes, main_notrav\n"
+               "for f in (main, main_nodes, main_notrav):\n    try:\n        f()\n    except SystemExit as e:\n        if e.code:\n            raise\n",
+        timeout=600))
 
 
 def classify(ob, model):
